@@ -159,6 +159,17 @@ CHECKS["C01"] = ("exploration",
     "with exchanged parameters are fitted on the same data.",
     "DESIGN.md §3 C01")
 
+CHECKS["C02"] = ("fault_enumeration",
+    "runtime frame monitor (deep parameter fingerprints and input bytes before/after every call, also when it "
+    "raises) under enumerated fault sequences: invalid-data classes, k-th inner estimator failing (probe "
+    "estimators, serial and threaded), and every fallible call site of fit found by a sys.monitoring census and "
+    "failed through a LINE-event failpoint; each fault followed by refit-vs-fresh-object atomicity checks",
+    "For 23 fittable classes x their configurations: one clean fit and every output method under the frame monitor; "
+    "14 invalid-data classes; every k for the inner estimators of 10 meta-estimators; the fault-site census is "
+    "recomputed from the current tree on every run and written to the evidence (quick: all sites of the two "
+    "anchored fits, a sample elsewhere; thorough: all sites, first and last hit).",
+    "DESIGN.md §3 C02")
+
 PENDING = {}
 
 
